@@ -22,8 +22,11 @@ type c19Case struct {
 	Names   []kit.Hex `json:"announced_names"`
 	Upload  []int     `json:"upload_mode"` // per file: 0 complete, 1 partial, 2 nothing
 	Dialect int       `json:"dialect"`
-	End     string    `json:"session_end"` // eof | garbage_frame | unknown_command | bad_checksum (the last three end the session as a failure)
+	End     string    `json:"session_end"`                 // eof | garbage_frame | unknown_command | bad_checksum (the last three end the session as a failure)
+	Overlap bool      `json:"overlapping_second_terminal"` // another terminal uploads a file while this session is open
 }
+
+const c19OtherPhone = "13900139000"
 
 const c19Phone = "13800138000"
 
@@ -114,7 +117,7 @@ func genHostileName(t *rapid.T, used map[string]bool) []byte {
 }
 
 func genC19(t *rapid.T) c19Case {
-	c := c19Case{Dialect: rapid.IntRange(1, 5).Draw(t, "dialect"), End: rapid.SampledFrom([]string{"eof", "eof", "garbage_frame", "unknown_command", "bad_checksum"}).Draw(t, "end")}
+	c := c19Case{Dialect: rapid.IntRange(1, 5).Draw(t, "dialect"), Overlap: rapid.IntRange(0, 3).Draw(t, "overlap") == 0, End: rapid.SampledFrom([]string{"eof", "eof", "garbage_frame", "unknown_command", "bad_checksum"}).Draw(t, "end")}
 	n := rapid.IntRange(1, 4).Draw(t, "n")
 	used := map[string]bool{}
 	for i := 0; i < n; i++ {
@@ -178,6 +181,26 @@ func checkC19(c c19Case, _ *kit.Collector) kit.Result {
 		stream = append(stream, f...)
 		cuts = append(cuts, len(stream))
 	}
+	if c.Overlap {
+		// after this terminal's announcement another terminal (other phone) connects, uploads one file and leaves
+		other := upScript{Dialect: c.Dialect, Phone: c19OtherPhone, TerminalID: kit.Hex("T2"), AlarmID: kit.Hex("A2"),
+			Files: []upFile{{Name: kit.Hex("other_b0.bin"), Size: 9, Seed: 77}},
+			Items: []upItem{{Kind: "1210"}, {Kind: "1211"}, {Kind: "chunk", Off: 0, Len: 9}, {Kind: "1212"}}}
+		streamHook = func(i int) {
+			if i != 1 {
+				return
+			}
+			streamHook = nil
+			var st []byte
+			var ct []int
+			for k, it := range other.Items {
+				st = append(st, other.encode(it, uint16(500+k))...)
+				ct = append(ct, len(st))
+			}
+			runStream(c.Dialect, st, ct, 0, 3, true)
+		}
+		defer func() { streamHook = nil }()
+	}
 	r := runStream(c.Dialect, stream, cuts, 0, nControl, true)
 	escaping := false
 	for _, n := range c.Names {
@@ -186,6 +209,9 @@ func checkC19(c c19Case, _ *kit.Collector) kit.Result {
 		}
 	}
 	res.Labels = []string{fmt.Sprintf("dialect%d", c.Dialect), "end_" + c.End}
+	if c.Overlap {
+		res.Labels = append(res.Labels, "overlapping_sessions")
+	}
 	if escaping {
 		res.Labels = append(res.Labels, "name_with_separator_or_dotdot")
 	}
@@ -226,7 +252,19 @@ func checkC19(c c19Case, _ *kit.Collector) kit.Result {
 		}
 		if strings.HasPrefix(p, allowedDir+string(filepath.Separator)) {
 			created++
+			if filepath.Base(p) == "other_b0.bin" {
+				bad = append(bad, "the other terminal's file was created in this terminal's directory: "+p)
+			}
 			return nil
+		}
+		if c.Overlap {
+			otherDir := filepath.Join(sandboxRoot, "work", c19OtherPhone)
+			if p == otherDir {
+				return nil
+			}
+			if p == filepath.Join(otherDir, "other_b0.bin") {
+				return nil
+			}
 		}
 		bad = append(bad, "created outside "+allowedDir+": "+p)
 		return nil
